@@ -252,6 +252,17 @@ func casesAttacks(c *caseCtx) {
 		}
 		emitQueries(c, s)
 	}
+	// checks (mostly mates) from a slider with the square behind the king free: every derived query, for both sides
+	nm := 0
+	for _, f := range sliderChecks(c, c.scale(120, 1200)) {
+		s := mustDecode(f)
+		if len(legalMoves(s.pos, s.turn)) == 0 {
+			nm++
+		}
+		emitQueries(c, s)
+		emitQueries(c, state{s.pos, s.turn.Opponent()})
+	}
+	fmt.Printf("COUNT slider-mates %d\n", nm)
 	concurrentQueries(c)
 	// eval.FindCapture / eval.FindPins
 	for _, s := range genStates(c, c.scale(300, 6000)) {
